@@ -212,10 +212,11 @@ def run_inst(inp, out, K, only):
         wt = "/tmp/wt/inst_" + inst
         if not os.path.isdir(wt):
             subprocess.run(["git", "-C", "/repo", "worktree", "add", "-q", "--detach", wt, "HEAD"])
-        if not os.path.isdir("/verif/.build/inst/" + inst):
-            os.makedirs("/verif/.build/inst/" + inst)
-            subprocess.run(["cp", "-a", "/verif/.build/harness", "/verif/.build/inst/%s/harness" % inst])
-            subprocess.run(["cp", "-a", "/verif/.build/repo", "/verif/.build/inst/%s/repo" % inst])
+        root = os.environ.get("VERIF_INSTANCE_ROOT", "/tmp/verif_inst")
+        if not os.path.isdir("%s/%s/build" % (root, inst)):
+            os.makedirs("%s/%s/build" % (root, inst))
+            subprocess.run(["cp", "-a", "/verif/.build/harness", "%s/%s/build/harness" % (root, inst)])
+            subprocess.run(["cp", "-a", "/verif/.build/repo", "%s/%s/build/repo" % (root, inst)])
         if not os.path.exists(wt + "/Cargo.lock"):
             subprocess.run(["cp", "/repo/Cargo.lock", wt + "/Cargo.lock"])
         env = dict(os.environ, VERIF_INSTANCE=inst, VERIF_REPO=wt)
